@@ -88,6 +88,8 @@ def one(sh, case, driver='generated'):
     sh.note('pad=%s' % case['pad'])
     sh.note('sig_view=%s' % case.get('sig_view'))
     sh.note('dtype=%s' % np.asarray(case['sig']).dtype.name)
+    if np.asarray(case['sig']).dtype.kind in 'iu' and np.asarray(case['sig']).dtype.itemsize < 8:
+        sh.note('narrow_integer_samples')
     if attach.COUNTS['C02:windows_with_ties'] - t0 > 0:
         sh.note('cases_with_tied_window')
     sh.case_done(case, nontrivial,
